@@ -15,8 +15,17 @@
     variable, earlier results included).  The slice-level model Model/RefsHeap.v
     is run along; after every operation the whole observable memory must agree,
     and the result must be what the value-level model Model/Refs.v computes from
-    the values before the operation. *)
-From CSS Require Import Lib.Base Lib.Cases Model.Ranges Model.Refs Model.RefsHeap.
+    the values before the operation.  The bytes handed out by RawBytes /
+    Reference.RawBytes are kept as well (layer Model/RefsBytes.v): a step carries
+    what is different in the byte results afterwards -- normally one new result
+    and nothing else, whatever was called later; [BScribble] is the caller
+    overwriting a result it was given.
+
+    [CRegReads] is a sequence of ReadAt calls on ONE register-file object
+    (TXTPublic / AMDRegisters, Model/RegFile.v); [CGRefBytes] / [CGRefsBytes] are
+    Reference.RawBytes / References.RawBytes over artifacts of every kind,
+    register files included. *)
+From CSS Require Import Lib.Base Lib.Cases Model.Ranges Model.Refs Model.RefsHeap Model.RefsBytes Model.RegFile.
 
 (** projection of a reference: artifact identity, mapper, ranges *)
 Definition robs : Type := (Z * mapper * list range)%type.
@@ -26,6 +35,8 @@ Definition R := mkRef.
 Definition r_ := mkR.
 Definition H := mkHdr.
 Definition S_ := mkSl.
+Definition Rg := mkReg.
+Definition G := mkGRef.
 
 (** observable memory: the structs of an array / of a References variable, the
     ranges of an array / of a Ranges variable *)
@@ -34,7 +45,9 @@ Inductive pitem := IRefs (l : list robs) | IRngs (l : list range).
 Inductive pres := XNone | XErr (e : bool) | XBytes (o : obs (list Z)) | XPanic.
 (** operation, what it returned, the observable items that differ from the state
     before (index, new content; an index one past the end adds an item) *)
-Definition pstep : Type := (op * pres * list (nat * pitem))%type.
+Definition pstep : Type := (bop * pres * list (nat * pitem) * list (nat * list Z))%type.
+(** one ReadAt call: the buffer before, the offset, (n, the buffer afterwards, error class) *)
+Definition rread : Type := (list Z * Z * obs (Z * list Z * Z))%type.
 
 Inductive case : Type :=
 | CRMerge (l out : list range)                                   (* Ranges.SortAndMerge *)
@@ -48,7 +61,10 @@ Inductive case : Type :=
 | CResolve (s : list ref) (out : list robs) (err : bool)         (* References.Resolve *)
 | CByArt (s : list ref) (a : art) (out : list robs)              (* References.BySystemArtifact *)
 | CRanges (s : list ref) (out : list range)                      (* References.Ranges *)
-| CProg (rarrs : list (list range)) (farrs : list (list hdr)) (env : list value) (steps : list pstep).
+| CProg (rarrs : list (list range)) (farrs : list (list hdr)) (env : list value) (steps : list pstep)
+| CRegReads (f : regfile) (reads : list rread)                   (* ReadAt, again and again on one object *)
+| CGRefBytes (r : gref) (res : obs (list Z))                     (* Reference.RawBytes, any artifact *)
+| CGRefsBytes (s : list gref) (res : obs (list Z)).              (* References.RawBytes, mixed lists *)
 
 Definition ranges_eqb := list_eqb range_eqb.
 Definition robs_eqb (a b : robs) : bool :=
@@ -84,7 +100,7 @@ Definition observe (nr nf : nat) (st : state) : list pitem :=
   ++ map IRngs (firstn nr (m_r m))
   ++ map (item_of m) (st_env st).
 
-Fixpoint apply_delta (prev : list pitem) (d : list (nat * pitem)) : list pitem :=
+Fixpoint apply_delta {A} (prev : list A) (d : list (nat * A)) : list A :=
   match d with
   | [] => prev
   | (i, it) :: t => apply_delta (if (i <? length prev)%nat then set_nth i it prev else prev ++ [it]) t
@@ -158,18 +174,27 @@ Definition vcheck (st : state) (o : op) (st' : state) (r : res) : bool :=
       end
   end.
 
-Fixpoint prog_check (nr nf : nat) (st : state) (prev : list pitem) (steps : list pstep) : bool :=
+(** [bprev]: the byte results as the harness saw them after the previous step *)
+Fixpoint prog_check (nr nf : nat) (bs : bstate) (prev : list pitem) (bprev : list (list Z))
+                    (steps : list pstep) : bool :=
   match steps with
   | [] => true
-  | (o, x, d) :: t =>
-      match step st o with
+  | (o, x, d, bd) :: t =>
+      match bstep bs o with
       | None => false
-      | Some (st', r) =>
+      | Some (bs', r) =>
           let now := apply_delta prev d in
-          pres_match x r && list_eqb pitem_eqb now (observe nr nf st') && vcheck st o st' r
-          && prog_check nr nf st' now t
+          let bnow := apply_delta bprev bd in
+          pres_match x r && list_eqb pitem_eqb now (observe nr nf (b_st bs'))
+          && list_eqb zlist_eqb bnow (b_bytes bs')
+          && (match o with BOp o' => vcheck (b_st bs) o' (b_st bs') r | BScribble _ _ => true end)
+          && prog_check nr nf bs' now bnow t
       end
   end.
+
+Definition read_check (f : regfile) (x : rread) : bool :=
+  let '(p, off, res) := x in
+  obs_match rd_eqb res (map_out (fun rd => (rd_n rd, rd_p rd, rd_err rd)) (rf_readat f p off)).
 
 Definition check (c : case) : bool :=
   match c with
@@ -190,7 +215,10 @@ Definition check (c : case) : bool :=
   | CRanges s out => ranges_eqb out (refs_ranges s)
   | CProg rarrs farrs env steps =>
       let st := mkSt (mkMem rarrs farrs) env in
-      prog_check (length rarrs) (length farrs) st (observe (length rarrs) (length farrs) st) steps
+      prog_check (length rarrs) (length farrs) (mkB st []) (observe (length rarrs) (length farrs) st) [] steps
+  | CRegReads f reads => forallb (read_check f) reads
+  | CGRefBytes r res => obs_match zlist_eqb res (gref_rawbytes r)
+  | CGRefsBytes s res => obs_match zlist_eqb res (grefs_rawbytes s)
   end.
 
 Definition mismatches := mismatches_by check.
